@@ -228,6 +228,23 @@ class IslandModel:
                         return True
         return False
 
+    def label_compare_in_defs(self, e, depth=0):
+        """does e (or the definition of a local name in it) contain the
+        own-label comparison?"""
+        if self.label_compare(e):
+            return True
+        if depth > 3:
+            return False
+        for x in ast.walk(e):
+            if isinstance(x, ast.Name):
+                for st in ast.walk(self.loop):
+                    if isinstance(st, ast.Assign) and any(
+                            isinstance(t, ast.Name) and t.id == x.id
+                            for t in st.targets) and \
+                            self.label_compare_in_defs(st.value, depth + 1):
+                        return True
+        return False
+
     def own_names(self):
         """{name: first line from which its value is restricted to the
         island's own pixels} (statements of the loop body in source order)"""
